@@ -26,6 +26,9 @@
                           (fo: a strings.Builder, fh: templ.ToGoHTML) and the result is then copied to the given writer
            onceA          @hA.Once() {...}   handle without fixed component
            onceF          @hF.Once()         handle created WithComponent(cf)   (called without block)
+           onceFb         @hF.Once() {...}   the same handle, called with or without a block: Once ignores the block (Ideal:
+                          the fixed component is called by Once without a block and gets none); as coded the block stays
+                          in the slot, so cf -- or, once rendered, the next block-less sibling -- receives it
            flush          @templ.Flush() {...}
            join           @templ.Join(cj, cj)
            raw nop script json   templ.Raw / templ.NopComponent / a script template / templ.JSONScript
@@ -102,7 +105,7 @@ IdNode(node, p, d) ==
           [] k = "cw" -> LET r == IdBlk(node, p, d)
                          IN  [o |-> wrap(k, p, wrap("c1", WrapInner(p), <<Tok("m", "", WrapInner(p))>> \o r.o)), d |-> r.d]
           [] k = "onceA" -> IF "hA" \in d THEN [o |-> <<>>, d |-> d] ELSE IdBlk(node, p, d \cup {"hA"})
-          [] k = "onceF" -> IF "hF" \in d THEN [o |-> <<>>, d |-> d]
+          [] k \in {"onceF", "onceFb"} -> IF "hF" \in d THEN [o |-> <<>>, d |-> d]
                             ELSE [o |-> wrap("cf", OnceFixed(p), <<>>), d |-> d \cup {"hF"}]
           [] k = "flush" -> IdBlk(node, p, d)
           [] k = "join" -> [o |-> wrap("cj", JoinA(p), <<>>) \o wrap("cj", JoinB(p), <<>>), d |-> d]
@@ -201,7 +204,7 @@ FuncEnter ==
 
 \* once.go, Once(): handle already rendered in this context -> return nil (slot untouched)
 OnceAgain ==
-    /\ Running /\ Cur.op = "enter" /\ Cur.k \in {"onceA", "onceF"}
+    /\ Running /\ Cur.op = "enter" /\ Cur.k \in {"onceA", "onceF", "onceFb"}
     /\ (IF Cur.k = "onceA" THEN "hA" ELSE "hF") \in done
     /\ slot' = After("OnceAgain", Cur.p)
     /\ ops' = Rest
@@ -218,9 +221,9 @@ OnceFirstBlock ==
 
 \* once.go, first render with a fixed component: o.c.Render(ctx, w) (slot untouched)
 OnceFirstFixed ==
-    /\ Running /\ Cur.op = "enter" /\ Cur.k = "onceF" /\ "hF" \notin done
+    /\ Running /\ Cur.op = "enter" /\ Cur.k \in {"onceF", "onceFb"} /\ "hF" \notin done
     /\ done' = done \cup {"hF"}
-    /\ slot' = IF "OnceFirst" \in Repaired THEN <<>> ELSE slot
+    /\ slot' = After("OnceFirst", Cur.p)      \* the block of this very call (onceFb), or a stale one, stays where it is
     /\ ops' = <<EnterOp("cf", OnceFixed(Cur.p))>> \o Rest
     /\ UNCHANGED <<tree, out, leaks, fin>> /\ Lbl("OnceFirstFixed") /\ UNCHANGED wr
 
